@@ -1391,6 +1391,12 @@ type c20HolderDef struct {
 // variable, whole-value stores of a composite literal (its field stores, or the zero value when it has none), and
 // anything else that can write the field (reported through Why).
 func c20HolderDefs(cell *ssa.Alloc, fld *types.Var) []c20HolderDef {
+	return c20HolderDefsAt(c20Aliases(cell), cell, fld)
+}
+
+// c20HolderDefsAt: as c20HolderDefs, for a struct variable given by the SSA values that are its address (cell: the
+// allocation the variable is, or lives in).
+func c20HolderDefsAt(addrs []ssa.Value, cell *ssa.Alloc, fld *types.Var) []c20HolderDef {
 	var out []c20HolderDef
 	fieldDefs := func(base ssa.Value) (defs []c20HolderDef, clean bool) {
 		clean = true
@@ -1473,7 +1479,7 @@ func c20HolderDefs(cell *ssa.Alloc, fld *types.Var) []c20HolderDef {
 		}
 		return d, ""
 	}
-	for _, a := range c20Aliases(cell) {
+	for _, a := range addrs {
 		defs, clean := fieldDefs(a)
 		out = append(out, defs...)
 		if !clean {
@@ -1571,9 +1577,10 @@ func c20Strip(v ssa.Value) ssa.Value {
 
 // c20AppendsRecord: the store `X.Generations = append(Y.Generations, elems...)` has X and Y both the trial variable T
 // and appends exactly one element, the content of the record variable G.
-func c20AppendsRecord(st *ssa.Store, T, G *ssa.Alloc) (bool, string) {
+func c20AppendsRecord(st *ssa.Store, T c20Place, G *ssa.Alloc) (bool, string) {
+	isT := func(addr ssa.Value) bool { pl, ok := c20PlaceOf(addr); return ok && pl == T }
 	fa, ok := st.Addr.(*ssa.FieldAddr)
-	if !ok || c20AllocOf(fa.X) != T {
+	if !ok || !isT(fa.X) {
 		return false, "the result is not stored into the recorded trial"
 	}
 	call, ok := c20Strip(st.Val).(*ssa.Call)
@@ -1588,7 +1595,7 @@ func c20AppendsRecord(st *ssa.Store, T, G *ssa.Alloc) (bool, string) {
 		return false, "the slice appended to is not the trial's Generations"
 	}
 	bfa, ok := base.X.(*ssa.FieldAddr)
-	if !ok || c20AllocOf(bfa.X) != T || fieldOf(bfa.X.Type(), bfa.Field) != fieldOf(fa.X.Type(), fa.Field) {
+	if !ok || !isT(bfa.X) || fieldOf(bfa.X.Type(), bfa.Field) != fieldOf(fa.X.Type(), fa.Field) {
 		return false, "the slice appended to is not the Generations of the recorded trial"
 	}
 	sl, ok := c20Strip(call.Call.Args[1]).(*ssa.Slice)
@@ -1625,4 +1632,616 @@ func c20AppendsRecord(st *ssa.Store, T, G *ssa.Alloc) (bool, string) {
 		return false, "the appended element cannot be identified"
 	}
 	return true, ""
+}
+
+// ---------------------------------------------------------------------------
+// Fifth round (1): a selection made by a lookup in a local literal map.
+//
+//	table := map[K]V{k1: v1, k2: v2}
+//	if v, ok := table[x]; ok { return use(v), nil }
+//	return nil, err
+//
+// is the switch `case k1: .. v1 ..; case k2: .. v2 ..; default: ..` written as data: `ok` is true exactly when x equals
+// one of the keys, and then v is the value stored under that key. This holds when the map is a literal of the function
+// that nobody else can write: it is created by make, every write is a store of a constant key made right after the
+// creation (the literal's entries, each executed exactly once before anything else can see the map), the keys are
+// distinct, and apart from those stores the map is only looked up (no range, no delete, no call receives it, it is not
+// stored anywhere).
+
+// c20MapEntry is one entry of a literal map.
+type c20MapEntry struct {
+	Key *ssa.Const
+	Val ssa.Value
+}
+
+// c20LiteralMap: m is such a literal map; its entries are returned.
+func c20LiteralMap(m ssa.Value) (*ssa.MakeMap, []c20MapEntry, bool) {
+	for {
+		ct, ok := m.(*ssa.ChangeType)
+		if !ok {
+			break
+		}
+		m = ct.X
+	}
+	mk, ok := m.(*ssa.MakeMap)
+	if !ok || mk.Referrers() == nil {
+		return nil, nil, false
+	}
+	var entries []c20MapEntry
+	var lookups []*ssa.Lookup
+	seen := map[string]bool{}
+	for _, ref := range *mk.Referrers() {
+		switch x := ref.(type) {
+		case *ssa.DebugRef:
+		case *ssa.MapUpdate:
+			k, isC := x.Key.(*ssa.Const)
+			if x.Map != ssa.Value(mk) || x.Value == ssa.Value(mk) || !isC || k.Value == nil {
+				return nil, nil, false
+			}
+			// an entry of the literal: stored in the block that creates the map, after the creation
+			if x.Block() != mk.Block() || !c20After(mk, x) {
+				return nil, nil, false
+			}
+			ks := k.Value.ExactString()
+			if seen[ks] {
+				return nil, nil, false
+			}
+			seen[ks] = true
+			entries = append(entries, c20MapEntry{Key: k, Val: x.Value})
+		case *ssa.Lookup:
+			if x.X != ssa.Value(mk) || x.Index == ssa.Value(mk) {
+				return nil, nil, false
+			}
+			lookups = append(lookups, x)
+		default:
+			return nil, nil, false
+		}
+	}
+	// every lookup sees the complete literal
+	for _, lk := range lookups {
+		for _, ref := range *mk.Referrers() {
+			if mu, isMU := ref.(*ssa.MapUpdate); isMU && !c20After(mu, lk) {
+				return nil, nil, false
+			}
+		}
+	}
+	return mk, entries, len(entries) > 0
+}
+
+// c20SelCase is one case of the executor selection behind a way a Return gets its operands (c20RetLeaf): the terms
+// of the executor and of the error returned and, when the way is taken on the outcome of a lookup of the executor type
+// in a literal map, what that outcome says about the executor type: it equals Key (one case per entry of the map, the
+// executor being read off the value stored under that key), or it is none of the keys (Miss).
+type c20SelCase struct {
+	V, E *Term
+	Key  *ssa.Const
+	Miss bool
+}
+
+// c20SelectionCases splits a leaf of epochExecutorForContext into its cases. keyOK decides whether the index of a
+// lookup is the executor type of the options.
+func c20SelectionCases(lf c20RetLeaf, ts *Termer, keyOK func(ssa.Value) bool) []c20SelCase {
+	plain := []c20SelCase{{V: ts.Of(lf.Vals[0]), E: ts.Of(lf.Vals[1])}}
+	for _, g := range lf.Guards {
+		c, val := g.Cond, g.True
+		for {
+			u, isNot := c.(*ssa.UnOp)
+			if !isNot || u.Op != token.NOT {
+				break
+			}
+			c, val = u.X, !val
+		}
+		ext, ok := c.(*ssa.Extract)
+		if !ok || ext.Index != 1 {
+			continue
+		}
+		lk, ok := ext.Tuple.(*ssa.Lookup)
+		if !ok || !lk.CommaOk || !keyOK(lk.Index) {
+			continue
+		}
+		_, entries, ok := c20LiteralMap(lk.X)
+		if !ok {
+			continue
+		}
+		if !val {
+			plain[0].Miss = true
+			return plain
+		}
+		// the value looked up: the first result of the same lookup
+		isHit := func(v ssa.Value) bool {
+			for {
+				ct, isCT := v.(*ssa.ChangeType)
+				if !isCT {
+					break
+				}
+				v = ct.X
+			}
+			x, isX := v.(*ssa.Extract)
+			return isX && x.Index == 0 && x.Tuple == ssa.Value(lk)
+		}
+		var out []c20SelCase
+		for _, en := range entries {
+			e := ts.Of(lf.Vals[1])
+			ret0 := lf.Vals[0]
+			for {
+				ct, isCT := ret0.(*ssa.ChangeType)
+				if !isCT {
+					break
+				}
+				ret0 = ct.X
+			}
+			switch {
+			case isHit(ret0):
+				// the executor is the value stored under the key
+				out = append(out, c20SelCase{V: ts.Of(en.Val), E: e, Key: en.Key})
+			default:
+				call, isCall := ret0.(*ssa.Call)
+				if !isCall || call.Call.IsInvoke() || len(call.Call.Args) != 0 || !isHit(call.Call.Value) {
+					// the executor does not depend on the value looked up
+					out = append(out, c20SelCase{V: ts.Of(lf.Vals[0]), E: e, Key: en.Key})
+					continue
+				}
+				// the executor is what the constructor stored under the key returns
+				var fn *ssa.Function
+				switch f := en.Val.(type) {
+				case *ssa.Function:
+					fn = f
+				case *ssa.MakeClosure:
+					fn, _ = f.Fn.(*ssa.Function)
+				}
+				n := 0
+				if fn != nil && fn.Signature.Results().Len() == 1 {
+					ft := NewTermer(fn)
+					for _, b := range fn.Blocks {
+						if ret, isRet := b.Instrs[len(b.Instrs)-1].(*ssa.Return); isRet && len(ret.Results) == 1 {
+							out = append(out, c20SelCase{V: ft.Of(ret.Results[0]), E: e, Key: en.Key})
+							n++
+						}
+					}
+				}
+				if n == 0 {
+					out = append(out, c20SelCase{V: &Term{Op: "unknown", Name: "result of " + en.Val.String()}, E: e, Key: en.Key})
+				}
+			}
+		}
+		return out
+	}
+	return plain
+}
+
+// ---------------------------------------------------------------------------
+// Fifth round (2): variables gathered into a by-value local struct.
+//
+// `current := trialRun{...}` keeps the trial, the population and the executor of a trial as fields of one local. A
+// field of a struct-valued local is a variable like any other: c20Place names a variable of the function - a local
+// allocation, or a field (path) of a struct-valued local allocation, reached by field addresses only (never through a
+// pointer load) - so that "the same variable" can be decided for both forms.
+
+type c20Place struct {
+	A    *ssa.Alloc
+	Path string // "" for the allocation itself, ".3" for its field 3, ".3.1" for field 1 of that field
+}
+
+func (pl c20Place) valid() bool { return pl.A != nil }
+
+// c20PlaceOf: the variable an address denotes (type changes and phis that carry one value are looked through).
+func c20PlaceOf(addr ssa.Value) (c20Place, bool) {
+	path := ""
+	for depth := 0; depth < 8; depth++ {
+		switch x := addr.(type) {
+		case *ssa.Alloc:
+			return c20Place{A: x, Path: path}, true
+		case *ssa.ChangeType:
+			addr = x.X
+		case *ssa.Phi:
+			var only ssa.Value
+			for _, e := range x.Edges {
+				if only == nil {
+					only = e
+				} else if only != e {
+					return c20Place{}, false
+				}
+			}
+			if only == nil {
+				return c20Place{}, false
+			}
+			addr = only
+		case *ssa.FieldAddr:
+			if _, isPtr := x.X.Type().Underlying().(*types.Pointer); !isPtr {
+				return c20Place{}, false
+			}
+			path = fmt.Sprintf(".%d", x.Field) + path
+			addr = x.X
+		default:
+			return c20Place{}, false
+		}
+	}
+	return c20Place{}, false
+}
+
+// c20PlaceAddrs: every SSA value that is the address of the variable: for an allocation the allocation and the free
+// variables of closures bound to it (c20Aliases); for a field the field addresses that denote it. whole lists the
+// reasons why the field cannot be treated as a variable of its own: the enclosing struct variable (or an enclosing
+// field) is used as a whole for anything but reading it.
+func c20PlaceAddrs(pl c20Place) (addrs []ssa.Value, whole []string) {
+	if pl.Path == "" {
+		return c20Aliases(pl.A), nil
+	}
+	fn := pl.A.Parent()
+	Instrs(fn, func(_ *ssa.BasicBlock, _ int, in ssa.Instruction) {
+		fa, ok := in.(*ssa.FieldAddr)
+		if !ok {
+			return
+		}
+		q, ok := c20PlaceOf(fa)
+		if !ok || q.A != pl.A {
+			return
+		}
+		if q == pl {
+			addrs = append(addrs, fa)
+		}
+	})
+	// the enclosing variables: the allocation and the fields on the path above pl
+	check := func(v ssa.Value) {
+		if v.Referrers() == nil {
+			return
+		}
+		for _, ref := range *v.Referrers() {
+			switch x := ref.(type) {
+			case *ssa.FieldAddr, *ssa.DebugRef:
+			case *ssa.UnOp:
+				if x.Op != token.MUL {
+					whole = append(whole, "the enclosing struct variable is used by "+x.String())
+				}
+			case *ssa.Store:
+				if x.Addr == v {
+					whole = append(whole, "the enclosing struct variable is assigned as a whole")
+				} else {
+					whole = append(whole, "the address of the enclosing struct variable is stored away")
+				}
+			default:
+				whole = append(whole, "the enclosing struct variable is handed to "+ref.String())
+			}
+		}
+	}
+	check(pl.A)
+	Instrs(fn, func(_ *ssa.BasicBlock, _ int, in ssa.Instruction) {
+		fa, ok := in.(*ssa.FieldAddr)
+		if !ok {
+			return
+		}
+		q, ok := c20PlaceOf(fa)
+		if ok && q.A == pl.A && q != pl && len(q.Path) < len(pl.Path) && pl.Path[:len(q.Path)] == q.Path && pl.Path[len(q.Path)] == '.' {
+			check(fa)
+		}
+	})
+	return addrs, whole
+}
+
+// c20PlaceDefs: every definition of field fld of the struct variable pl (see c20HolderDefs).
+func c20PlaceDefs(pl c20Place, fld *types.Var) []c20HolderDef {
+	if pl.Path == "" {
+		return c20HolderDefs(pl.A, fld)
+	}
+	addrs, whole := c20PlaceAddrs(pl)
+	out := c20HolderDefsAt(addrs, pl.A, fld)
+	for _, w := range whole {
+		out = append(out, c20HolderDef{Why: w})
+	}
+	return out
+}
+
+// c20PrivatePlace: the variable is only ever read and written directly: every address of it is used for loads and for
+// stores to it and nothing else (closures that share a local allocation included). The stores are returned.
+func c20PrivatePlace(pl c20Place) ([]*ssa.Store, bool) {
+	addrs, whole := c20PlaceAddrs(pl)
+	if len(whole) > 0 {
+		return nil, false
+	}
+	var stores []*ssa.Store
+	for _, a := range addrs {
+		if a.Referrers() == nil {
+			continue
+		}
+		for _, ref := range *a.Referrers() {
+			switch x := ref.(type) {
+			case *ssa.DebugRef:
+			case *ssa.UnOp:
+				if x.Op != token.MUL {
+					return nil, false
+				}
+			case *ssa.Store:
+				if x.Addr != a || x.Val == a {
+					return nil, false
+				}
+				stores = append(stores, x)
+			case *ssa.MakeClosure:
+				// the closure shares the variable: its free variable is among the addresses
+				if pl.Path != "" {
+					return nil, false
+				}
+			default:
+				return nil, false
+			}
+		}
+	}
+	return stores, true
+}
+
+// c20CellOrigins resolves a value to the values it can have come from: phis are followed over all their edges, a load
+// of a private variable (c20PrivatePlace; a local shared with closures through free variables included) over everything
+// stored to it. cells reports the stores passed through.
+func c20CellOrigins(v ssa.Value) (leaves []ssa.Value, through []*ssa.Store) {
+	seen := map[ssa.Value]bool{}
+	var visit func(v ssa.Value, depth int)
+	visit = func(v ssa.Value, depth int) {
+		for {
+			ct, ok := v.(*ssa.ChangeType)
+			if !ok {
+				break
+			}
+			v = ct.X
+		}
+		if seen[v] {
+			return
+		}
+		seen[v] = true
+		if depth > 8 {
+			leaves = append(leaves, v)
+			return
+		}
+		switch x := v.(type) {
+		case *ssa.Phi:
+			for _, e := range x.Edges {
+				visit(e, depth+1)
+			}
+			return
+		case *ssa.UnOp:
+			if x.Op != token.MUL {
+				break
+			}
+			var pl c20Place
+			ok := false
+			if fv, isFV := x.X.(*ssa.FreeVar); isFV {
+				if cell := c20CellOf(fv); cell != nil {
+					pl, ok = c20Place{A: cell}, true
+				}
+			} else {
+				pl, ok = c20PlaceOf(x.X)
+			}
+			if !ok {
+				break
+			}
+			stores, private := c20PrivatePlace(pl)
+			if !private || len(stores) == 0 {
+				break
+			}
+			for _, st := range stores {
+				through = append(through, st)
+				visit(st.Val, depth+1)
+			}
+			return
+		}
+		leaves = append(leaves, v)
+	}
+	visit(v, 0)
+	return leaves, through
+}
+
+// ---------------------------------------------------------------------------
+// Fifth round (3): a ladder of steps written as a loop over a literal slice of closures.
+//
+//	steps := []func() error{ func() error {A}, func() error {B}, func() error {C} }
+//	for _, step := range steps { if err := step(); err != nil { return err } }
+//
+// is `if err := A'(); err != nil { return err }; if err := B'(); ...` (c15TableLoop establishes exactly this: every
+// closure is called once, in index order, the run is cut short only by a non-nil error of the closure just called, and
+// nothing else happens in the loop). Such a loop is no loop of the protocol; C20 treats it as the place where its
+// closures run: taking the exit edge of the loop's counter test means every step has run to a nil result.
+//
+// What a step closure may do is restricted so that the rules decided on Execute's own code stay complete: it makes no
+// protocol call (observer, evaluator, executor methods), contains no channel operation, go, defer or nested closure,
+// and writes no memory but its own locals and local variables of Execute it captured (those are cells to every rule
+// that reads them). The protocol steps that may sit in a step closure are the static calls NewPopulation and
+// epochExecutorForContext; the rules on them are decided on the closure's code plus the place of the loop.
+
+type c20StepLoop struct {
+	L        *Loop
+	At       *ssa.Call
+	Fns      []*ssa.Function    // the closures, in the order they are called
+	Mcs      []*ssa.MakeClosure // the instruction that made each of them (nil for a plain function)
+	ErrExits []*ssa.BasicBlock
+}
+
+// c20StepSite: instruction In of the K-th closure of step loop S.
+type c20StepSite struct {
+	S  *c20StepLoop
+	K  int
+	In ssa.Instruction
+}
+
+// c20StepLoops splits the loops of fn into step loops and the rest.
+func c20StepLoops(fn *ssa.Function, loops []*Loop) (steps []*c20StepLoop, rest []*Loop) {
+	for _, l := range loops {
+		var found *c20StepLoop
+		for b := range l.Blocks {
+			if InnermostLoop(loops, b) != l {
+				continue
+			}
+			for _, in := range b.Instrs {
+				call, ok := in.(*ssa.Call)
+				if !ok || call.Call.IsInvoke() || call.Call.StaticCallee() != nil || len(call.Call.Args) != 0 {
+					continue
+				}
+				if _, isB := call.Call.Value.(*ssa.Builtin); isB {
+					continue
+				}
+				vals, errExits, ok := c15TableLoop(l, call, call.Call.Value)
+				if !ok || found != nil {
+					continue
+				}
+				s := &c20StepLoop{L: l, At: call, ErrExits: errExits}
+				for _, v := range vals {
+					switch f := v.(type) {
+					case *ssa.MakeClosure:
+						cf, isFn := f.Fn.(*ssa.Function)
+						if !isFn || cf.Parent() != fn {
+							s = nil
+						} else {
+							s.Fns, s.Mcs = append(s.Fns, cf), append(s.Mcs, f)
+						}
+					case *ssa.Function:
+						s.Fns, s.Mcs = append(s.Fns, f), append(s.Mcs, nil)
+					default:
+						s = nil
+					}
+					if s == nil {
+						break
+					}
+				}
+				if s != nil && len(s.Fns) > 0 {
+					found = s
+				}
+			}
+		}
+		if found != nil {
+			steps = append(steps, found)
+		} else {
+			rest = append(rest, l)
+		}
+	}
+	return steps, rest
+}
+
+// CompleteExit: the edge a->b leaves the step loop through its counter test (every step has run to a nil result).
+func (s *c20StepLoop) CompleteExit(a, b *ssa.BasicBlock) bool {
+	return a == s.L.Header && !s.L.Blocks[b]
+}
+
+// c20StepClosureProblem: why the closure is not a plain step ("" when it is): see the comment above.
+func c20StepClosureProblem(p *Prog, fn *ssa.Function) string {
+	if len(fn.Blocks) == 0 || fn.Recover != nil {
+		return "it has no analysable body"
+	}
+	localAddr := func(a ssa.Value) bool {
+		for depth := 0; depth < 8; depth++ {
+			switch x := a.(type) {
+			case *ssa.FreeVar:
+				return true // a local variable of Execute, assigned as a whole
+			case *ssa.Alloc:
+				return true
+			case *ssa.FieldAddr:
+				if _, isAlloc := x.X.(*ssa.Alloc); !isAlloc {
+					if _, isFA := x.X.(*ssa.FieldAddr); !isFA {
+						return false
+					}
+				}
+				a = x.X
+			case *ssa.IndexAddr:
+				al, isAlloc := x.X.(*ssa.Alloc)
+				if !isAlloc {
+					return false
+				}
+				a = al
+			default:
+				return false
+			}
+		}
+		return false
+	}
+	why := ""
+	// a captured variable is read and assigned, its address goes nowhere else
+	for _, fv := range fn.FreeVars {
+		if fv.Referrers() == nil {
+			continue
+		}
+		for _, ref := range *fv.Referrers() {
+			switch x := ref.(type) {
+			case *ssa.DebugRef:
+			case *ssa.UnOp:
+				if x.Op != token.MUL {
+					why = "it uses the address of the captured variable " + fv.Name()
+				}
+			case *ssa.Store:
+				if x.Addr != ssa.Value(fv) || x.Val == ssa.Value(fv) {
+					why = "it stores the address of the captured variable " + fv.Name() + " @" + p.Pos(x.Pos())
+				}
+			case *ssa.FieldAddr:
+				if x.Referrers() != nil {
+					for _, r2 := range *x.Referrers() {
+						if u, isLd := r2.(*ssa.UnOp); isLd && u.Op == token.MUL {
+							continue
+						}
+						if _, isDbg := r2.(*ssa.DebugRef); isDbg {
+							continue
+						}
+						why = "it uses the address of a field of the captured variable " + fv.Name() + " @" + p.Pos(x.Pos())
+					}
+				}
+			default:
+				why = "it uses the address of the captured variable " + fv.Name() + " @" + p.Pos(ref.Pos())
+			}
+		}
+	}
+	Instrs(fn, func(_ *ssa.BasicBlock, _ int, in ssa.Instruction) {
+		if why != "" {
+			return
+		}
+		at := " @" + p.Pos(in.Pos())
+		switch x := in.(type) {
+		case *ssa.Go, *ssa.Defer, *ssa.Select, *ssa.Send, *ssa.MapUpdate, *ssa.MakeClosure, *ssa.Panic, *ssa.RunDefers:
+			why = fmt.Sprintf("it contains %T", in) + at
+		case *ssa.UnOp:
+			if x.Op == token.ARROW {
+				why = "it receives from a channel" + at
+			}
+		case *ssa.Store:
+			if !localAddr(x.Addr) {
+				why = "it writes memory that is not a local variable" + at
+			}
+			if _, isFV := x.Val.(*ssa.FreeVar); isFV {
+				why = "it stores the address of a captured variable" + at
+			}
+		case *ssa.Call:
+			if x.Call.IsInvoke() {
+				switch x.Call.Method.Name() {
+				case "TrialRunStarted", "TrialRunFinished", "EpochEvaluated", "GenerationEvaluate", "NextEpoch", "Done", "Err":
+					why = "it makes the protocol call " + x.Call.Method.Name() + at
+				}
+				return
+			}
+			// the address of a captured variable must not travel into a call
+			for _, a := range x.Call.Args {
+				if _, isFV := a.(*ssa.FreeVar); isFV {
+					why = "it hands the address of a captured variable to a call" + at
+				}
+			}
+			if callee := x.Call.StaticCallee(); callee == nil {
+				if _, isB := x.Call.Value.(*ssa.Builtin); isB {
+					return
+				}
+				// a call of a function value: only package-level function variables (the loggers)
+				ld, isLd := x.Call.Value.(*ssa.UnOp)
+				if isLd && ld.Op == token.MUL {
+					if _, isG := ld.X.(*ssa.Global); isG {
+						return
+					}
+				}
+				why = "it calls a function value" + at
+			}
+		}
+	})
+	return why
+}
+
+// c20CapturedParam: operand a of an instruction of step closure k holds parameter prm of the function that made the
+// closure: it loads a captured variable that is written exactly once, with that parameter, before the closure is made.
+func (s *c20StepLoop) capturedValue(k int, a ssa.Value) ssa.Value {
+	if s.Mcs[k] == nil {
+		if c, ok := a.(*ssa.Const); ok {
+			return c
+		}
+		return nil
+	}
+	return c15CapturedValue(s.Mcs[k], s.Fns[k], a)
 }
